@@ -156,7 +156,7 @@ def _worker(arg):
     import sys
 
     sys.path.insert(0, os.environ.get("VERIF_REPO", "/repo"))
-    from lib.guard import limits, time_limit
+    from lib.guard import HardTimeout, limits, time_limit
     from sqlglot.dialects.dialect import Dialect
 
     limits()
@@ -179,7 +179,7 @@ def _worker(arg):
             try:
                 with time_limit(10):
                     case, _ = observe(sql, dialect, d, want_parse, tcache[dialect])
-            except Exception as e:
+            except (Exception, HardTimeout) as e:
                 out.append({"meta": {"dialect": dialect, "ctx": ctxname, "classes": classes, "sql": sql}, "crash": f"{type(e).__name__}: {e}"})
                 continue
             case["meta"] = {"dialect": dialect, "ctx": ctxname, "classes": list(classes), "sql": sql}
